@@ -505,14 +505,39 @@ class ArrayBase(ParsableBase, MutableSequence, Serializable):
     def __getitem__(self, index):
         return self._items[index]
 
+    def _update_items_size_bulk(self, del_items=(), insert_items=()):
+        size_diff = 0
+
+        for del_item in del_items:
+            size_diff -= self.param.get_item_size(del_item)
+        for insert_item in insert_items:
+            size_diff += self.param.get_item_size(insert_item)
+
+        if self._items_size + size_diff < self.param.min_byte_num:
+            raise NotEnoughData(self.param.min_byte_num)
+        if self._items_size + size_diff > self.param.max_byte_num:
+            raise TooMuchData(self.param.max_byte_num)
+
+        self._items_size += size_diff
+
     def __delitem__(self, index):
-        self._update_items_size(del_item=self._items[index])
+        if isinstance(index, slice):
+            self._update_items_size_bulk(del_items=self._items[index])
+        else:
+            self._update_items_size(del_item=self._items[index])
 
         del self._items[index]
 
     def __setitem__(self, index, value):
-        self._update_items_size(del_item=self._items[index], insert_item=value)
-        self._items[index] = value
+        if isinstance(index, slice):
+            value = list(value)
+            items = list(self._items)
+            items[index] = value  # raises on an extended slice of another size, before anything is changed
+            self._update_items_size_bulk(del_items=self._items[index], insert_items=value)
+            self._items = items
+        else:
+            self._update_items_size(del_item=self._items[index], insert_item=value)
+            self._items[index] = value
 
     def __str__(self):
         return str(self._items)
@@ -524,6 +549,25 @@ class ArrayBase(ParsableBase, MutableSequence, Serializable):
 
     def append(self, value):
         self.insert(len(self._items), value)
+
+    def extend(self, values):
+        values = list(values)
+        self._update_items_size_bulk(insert_items=values)
+
+        self._items.extend(values)
+
+    def __iadd__(self, values):
+        self.extend(values)
+
+        return self
+
+    def clear(self):
+        self._update_items_size_bulk(del_items=self._items)
+
+        del self._items[:]
+
+    def reverse(self):
+        self._items.reverse()
 
     def _asdict(self):
         return self._items
